@@ -62,9 +62,10 @@ type cEvent struct {
 }
 
 type cVariant struct {
-	Impl  string `json:"impl"`
-	Shift int    `json:"shift"`
-	Table int    `json:"table"`
+	Impl   string `json:"impl"`
+	Shift  int    `json:"shift"`
+	Table  int    `json:"table"`
+	NoFrom bool   `json:"nofrom"` // soft types declared by hand: relationships without FromType
 }
 
 type cCase struct {
